@@ -140,3 +140,33 @@ Theorem C02_overlapping_replies_runner_sound (c : tcfg) (pf : bool) s rs ids s1 
   exists ls, s' = rt_exec c pf s ls.
 Proof. exact (rt_conc_reach c pf s rs ids s1 n s'). Qed.
 Print Assumptions C02_overlapping_replies_runner_sound.
+
+(* Lookups engine, honest-network cases (harness/cmd/h/lookups_closest.go, line `lkexact`): the list the runner
+   answers with (RunLookupsClosest.rlc_exact: every node of the network pushed into the K-nearest container of
+   Lookups.v) IS "the K closest nodes of that network" of the property's second sentence, whatever the order in which
+   the nodes are listed: it is the first K of the sorted whole, the sorted whole misses no node of the network, and
+   nothing that was left out is closer to the target than a member. *)
+From Dht Require Lookups RunLookupsClosest RunLookupsClosestProofs.
+Theorem C02_lookups_exact_first_k t k es :
+  RunLookupsClosest.rlc_run t k es = firstn k (RunLookupsClosest.rlc_all t es).
+Proof. exact (RunLookupsClosestProofs.rlc_run_spec t k es). Qed.
+Theorem C02_lookups_exact_covers t es x :
+  In x es -> exists y, In y (RunLookupsClosest.rlc_all t es) /\ Lookups.lk_cmp t y x = Eq.
+Proof. exact (RunLookupsClosestProofs.rlc_all_covers t es x). Qed.
+Theorem C02_lookups_exact_nearest t k es m e :
+  In m (RunLookupsClosest.rlc_run t k es) -> In e (RunLookupsClosest.rlc_all t es) ->
+  ~ In e (RunLookupsClosest.rlc_run t k es) ->
+  Lookups.lk_cmp t m e = Lt /\
+  (N.lxor (Lookups.e_id m) t <= N.lxor (Lookups.e_id e) t)%N.
+Proof. exact (RunLookupsClosestProofs.rlc_nearest t k es m e). Qed.
+Theorem C02_lookups_exact_members t k net a :
+  In a (RunLookupsClosest.rlc_exact t k net) -> In a (map snd net).
+Proof. exact (RunLookupsClosestProofs.rlc_exact_incl t k net a). Qed.
+Example C02_lookups_exact_nonvacuous :
+  RunLookupsClosest.rlc_exact 8 2 [(1, 101); (9, 102); (12, 103); (10, 104); (200, 105)]%N = [102; 104]%N /\
+  RunLookupsClosest.rlc_exact 8 2 [(200, 105); (10, 104); (12, 103); (9, 102); (1, 101)]%N = [102; 104]%N.
+Proof. exact RunLookupsClosestProofs.rlc_exact_example. Qed.
+Print Assumptions C02_lookups_exact_first_k.
+Print Assumptions C02_lookups_exact_covers.
+Print Assumptions C02_lookups_exact_nearest.
+Print Assumptions C02_lookups_exact_members.
